@@ -103,7 +103,7 @@ impl Scenario for RunStub {
         "run_stub"
     }
     fn runs(&self, tier: Tier) -> u64 {
-        tier.pick(20_000, 200_000)
+        tier.pick(20_000, 800_000)
     }
     fn generate(&self, g: &mut Gen, _tier: Tier, _idx: u64) -> Value {
         let nc = g.usize(1, 32);
@@ -175,7 +175,7 @@ impl Scenario for RealHistory {
         "run_real_history"
     }
     fn runs(&self, tier: Tier) -> u64 {
-        tier.pick(2400, 24_000)
+        tier.pick(2400, 96_000)
     }
     fn generate(&self, g: &mut Gen, _tier: Tier, _idx: u64) -> Value {
         use crate::props::c07::gen_spec;
